@@ -83,6 +83,17 @@ def generate(rng, tier):
         lines += ['gb.rr %d 65024 65183' % i for i in range(3)]
         cases.append(('dma%d' % ndma, lines))
         ndma += 1
+    # machines running truly in parallel, each streaming its own bytes to its serial writer
+    for rep in range(2 if tier == 'quick' else 10):
+        nI = 3
+        lines = ['gb.newloop %d 0 0 0' % i for i in range(nI)]
+        for i in range(nI):
+            prog = [0x3e, 0x20 + 0x30 * i, 0xe0, 0x01, 0x3c, 0xfe, 0x40 + 0x30 * i, 0x38, 0xf9, 0x18, 0xf5]
+            for j, b in enumerate(prog):
+                lines.append('gb.w %d %d %d' % (i, 0xc000 + j, b))
+            lines.append('gb.set %d 1 2 3 4 5 0 6 7 57343 49152' % i)
+        lines += ['gb.conc %d %d' % (nI, 12 if tier == 'quick' else 40)] + ['gb.serial %d' % i for i in range(nI)] + obs_all(nI)
+        cases.append(('parser%d' % rep, lines))
     # external RAM of cartridges that declare none / some: written on one instance, read on the others
     nram = 0
     for typ, ramc in [(0x01, 0), (0x00, 0), (0x11, 0), (0x19, 0), (0x03, 2), (0x13, 3), (0x1b, 2), (0x06, 0)]:
